@@ -99,13 +99,16 @@ def rand_data(rng, kind, n):
             base = np.frombuffer(bytes(b & 1 for b in raw), dtype='?').copy()
         else:
             base = np.frombuffer(raw, dtype=np.dtype(dt).newbyteorder('<')).astype(dt)
-        form = rng.choice(['plain', 'plain', 'strided', 'reversed', 'swapped'])
+        form = rng.choice(['plain', 'plain', 'strided', 'reversed', 'swapped', 'readonly'])
         if form == 'strided':
             arr = base[::2]
         elif form == 'reversed':
             arr = base[:n][::-1]
         elif form == 'swapped' and dt not in ('?', 'i1', 'u1'):
             arr = base[:n].astype(np.dtype(dt).newbyteorder('>' if np.dtype(dt).newbyteorder('=').byteorder in '=<' else '<'))
+        elif form == 'readonly':
+            arr = base[:n].copy()
+            arr.flags.writeable = False          # e.g. np.frombuffer over bytes, a memory-mapped file opened 'r'
         else:
             arr = base[:n]
         arr = arr[:n]
